@@ -47,3 +47,17 @@ Print Assumptions C04_reverse_step_is_code.
 Theorem C04_best_access_is_code : forall p k st, best_access_sk G.gen_rev_best_time G.gen_rev_best_ok p k st = best_access p k st.
 Proof. exact best_access_tie. Qed.
 Print Assumptions C04_best_access_is_code.
+
+(* ---- THE FULL DECLARATIVE STATEMENT (Optimal.v): for every dataset, scenario, arrival query and router tables of the
+   property's domain the answer is a success exactly when an admissible journey exists, and then the reported
+   departure is the maximum over ALL admissible journeys (reverse-scan completeness with both breaks, the first
+   guard and the exit-replacement rule: RevOpt.v; composition RevOptCompose.v) ---- *)
+From TrV Require Import Proofs.RevOptCompose.
+Theorem C04_full_declarative : C04_decl_statement.
+Proof. exact C04_decl_proved. Qed.
+Print Assumptions C04_full_declarative.
+(* ... and it holds without the uniform-waiting restriction as well (after the repair of D12) *)
+Theorem C04_full_declarative_mixed_waiting : forall d s p acc egr,
+  opt_domain d s p acc egr -> pos_hops_b d = true -> q_fwd p = false -> C04_decl d s p acc egr.
+Proof. exact C04_decl_strong. Qed.
+Print Assumptions C04_full_declarative_mixed_waiting.
